@@ -273,14 +273,14 @@ def c08(tier):
     quick = tier == "quick"
     ng = lgrams.ng_cases()
     if quick:
-        head, tail = ng[:-4], ng[-4:]
+        head, tail = ng[:-9], ng[-9:]
         rng.shuffle(head)
         ng = head[:36] + tail
     cases = json.loads(json.dumps(ng))
 
     def mode_of(c):
         # the whole stream is determined when the non-greedy rule has a non-empty prefix that no other rule shares
-        return "stream" if (c["id"].startswith("ng-cmt-") or c["id"].startswith("ng-lt-")) else "pertoken"
+        return "stream" if ((c["id"].startswith("ng-cmt-") or c["id"].startswith("ng-lt-")) and "inmode" not in c["id"]) else "pertoken"
     X = lex_explore(rep, sc, cases, rng, 2500 if quick else 20000, 300 if quick else 1500, 15 if quick else 80, ng=mode_of, alpha_cap=5)
     acc, lruns = X["acc"], X["lruns"]
     bad, ro = run_lexobs(sc, X["lcases"], lruns)
